@@ -198,3 +198,8 @@ Proof. vm_compute. reflexivity. Qed.
 Example cfg_sane_excludes :
   map cfg_sane [mkcfg "build/"; mkcfg "../../.."; mkcfg "../shared"; mkcfg "overlayfs/x"] = [false; false; false; true].
 Proof. vm_compute. reflexivity. Qed.
+
+(* the numbering part of the kernel invariant (Proofs/KernelInvP.v) on the good world *)
+From LC Require Import Proofs.KernelInvP.
+Example numbered_sat : numbered (wo_ks good_world) = true.
+Proof. vm_compute. reflexivity. Qed.
